@@ -59,6 +59,8 @@ def seeded():
         caught += bool(by)
         withinp += bool(inp)
         extra = m.get("caught_by_note", "")
+        if r.get("patch_applies_at_head", {}).get("applies") is False:
+            extra = (extra + "; " if extra else "") + "evaluated at repo head %s (the patch no longer applies after later fix: commits)" % r.get("repo_head")
         out.append("| %s | %s: %s | %s | %s | %s%s | %s |" % (
             os.path.basename(d), m.get("property"), esc(m.get("title", ""))[:160], esc(m.get("needs_to_manifest", ""))[:260],
             "yes" if r.get("demo_confirms", m.get("demo_confirms")) else "?", ", ".join(by) or "**missed**", (" — " + esc(extra)) if extra else "",
